@@ -142,7 +142,8 @@ pub(crate) fn render_zsh(
             writeln!(res, "compadd ''")?;
             return Ok(res);
         } else {
-            return Ok(format!("compadd -- {}\n", Shell(items[0].subst.as_str())));
+            writeln!(res, "compadd -- {}", Shell(items[0].subst.as_str()))?;
+            return Ok(res);
         }
     }
     writeln!(res, "local -a descr")?;
